@@ -1,36 +1,15 @@
 (** Statements of the C17 property theorems, pinned: weakening one breaks this file. *)
 From Coq Require Import List NArith Bool.
-From JrV Require Import C17.Model C17.Properties.
+From JrV Require Import C17.Model C17.FixedProofs C17.Properties.
 Import ListNotations.
 Open Scope N_scope.
 
-Check C17_loc_restricted :
+Check C17_loc_general :
   forall file offs i o,
-    known_multibyte file offs = false -> known_dup offs = false ->
-    (forall o', In o' offs -> o' <= blen file) ->
+    (forall o', In o' offs -> exists k, (k <= length file)%nat /\ o' = blen (firstn k file)) ->
     nth_error offs i = Some o ->
     core (nth i (offset_to_location Cur file offs) zero_loc) =
     (o, spec_line (encode file) o, spec_col (encode file) o + 1, spec_line_start (encode file) o).
-Check C17_loc_ascii :
-  forall file offs i o,
-    forallb is_ascii file = true -> NoDup offs ->
-    (forall o', In o' offs -> o' <= N.of_nat (length file)) ->
-    nth_error offs i = Some o ->
-    core (nth i (offset_to_location Cur file offs) zero_loc) =
-    (o, spec_line file o, spec_col file o + 1, spec_line_start file o).
-Check C17_loc_general_refuted :
-  exists file offs i o,
-    NoDup offs /\ (forall o', In o' offs -> o' <= blen file) /\ nth_error offs i = Some o /\
-    known_multibyte file offs = true /\
-    c_line (nth i (offset_to_location Cur file offs) zero_loc) <> spec_line (encode file) o.
-Check C17_loc_unmatched_refuted :
-  exists file offs, NoDup offs /\ (forall o', In o' offs -> o' <= blen file) /\
-    offset_to_location Cur file offs = [zero_loc; zero_loc].
-Check C17_loc_duplicates_refuted :
-  exists file offs i o,
-    forallb is_ascii file = true /\ (forall o', In o' offs -> o' <= blen file) /\
-    nth_error offs i = Some o /\ known_dup offs = true /\
-    c_line (nth i (offset_to_location Cur file offs) zero_loc) <> spec_line (encode file) o.
 Check C17_print_span :
   forall s e, known_multiline s e = false ->
     printed_line (print_loc s e) = c_line s /\ printed_col (print_loc s e) = c_col s - 1.
@@ -39,11 +18,18 @@ Check C17_print_span_refuted :
               printed_col (print_loc s e) <> c_col s - 1.
 Check C17_reported_position :
   forall file a b,
-    known_multibyte file [a; b] = false -> a <> b -> a <= blen file -> b <= blen file ->
+    (exists k, (k <= length file)%nat /\ a = blen (firstn k file)) ->
+    (exists k, (k <= length file)%nat /\ b = blen (firstn k file)) ->
     spec_line (encode file) a = spec_line (encode file) b ->
     let locs := offset_to_location Cur file [a; b] in
     let p := print_loc (nth 0 locs zero_loc) (nth 1 locs zero_loc) in
     printed_line p = spec_line (encode file) a /\ printed_col p = spec_col (encode file) a.
+Check C17_jsformat_position :
+  forall file a b,
+    (exists k, (k <= length file)%nat /\ a = blen (firstn k file)) ->
+    (exists k, (k <= length file)%nat /\ b = blen (firstn k file)) ->
+    let locs := offset_to_location Cur file [a; b] in
+    print_js (nth 0 locs zero_loc) = (spec_line (encode file) a, spec_col (encode file) a).
 Check C17_lex_tiles :
   forall (K : Type) (matcher : list N -> option (K * N)) input,
     matcher_ok matcher ->
@@ -57,27 +43,34 @@ Check C17_sink_lossless :
   forall (T : Type) (lx : list (bool * T)) (evs : list event),
     wf_events 0 false evs = true -> count_tokens evs = count_nontrivia lx ->
     sink lx evs = Some lx.
-Check C17_loc_fixed_general :
-  forall file offs i o,
-    (forall o', In o' offs -> exists k, (k <= length file)%nat /\ o' = blen (firstn k file)) ->
-    nth_error offs i = Some o ->
-    core (nth i (offset_to_location Fixed file offs) zero_loc) =
-    (o, spec_line (encode file) o, spec_col (encode file) o + 1, spec_line_start (encode file) o).
-Check C17_jsformat_column_refuted :
-  forall file a b,
-    known_multibyte file [a; b] = false -> a <> b -> a <= blen file -> b <= blen file ->
-    let locs := offset_to_location Cur file [a; b] in
-    print_js (nth 0 locs zero_loc) = (spec_line (encode file) a, spec_col (encode file) a + 1).
+Check C17_loc_old_general_refuted :
+  exists file offs i o,
+    NoDup offs /\ (forall o', In o' offs -> o' <= blen file) /\ nth_error offs i = Some o /\
+    known_multibyte file offs = true /\
+    c_line (nth i (offset_to_location Old file offs) zero_loc) <> spec_line (encode file) o.
+Check C17_loc_old_unmatched_refuted :
+  exists file offs, NoDup offs /\ (forall o', In o' offs -> o' <= blen file) /\
+    offset_to_location Old file offs = [zero_loc; zero_loc].
+Check C17_loc_old_duplicates_refuted :
+  exists file offs i o,
+    forallb is_ascii file = true /\ (forall o', In o' offs -> o' <= blen file) /\
+    nth_error offs i = Some o /\ known_dup offs = true /\
+    c_line (nth i (offset_to_location Old file offs) zero_loc) <> spec_line (encode file) o.
 
 (** definitions pinned by value: the Rust unit test of location.rs, the design-round
-    observation, UTF-8 *)
+    observation (now located), duplicates, UTF-8, printers, sink *)
 Check eq_refl : map core (offset_to_location Cur
   [104;101;108;108;111;32;119;111;114;108;100;10;95;95;95;95;95;95] [0; 14]) = [(0, 1, 2, 0); (14, 2, 4, 12)].
+Check eq_refl : map core (offset_to_location Cur [233; 233; 233; 233; 233; 10; 101; 114; 114; 111; 114] [11; 16])
+  = [(11, 2, 2, 11); (16, 2, 7, 11)].
+Check eq_refl : map core (offset_to_location Cur [233; 233; 10; 97; 98] [5; 7; 5]) = [(5, 2, 2, 5); (7, 2, 4, 5); (5, 2, 2, 5)].
+Check eq_refl : offset_to_location Old [233; 233; 233; 233; 233; 10; 101; 114; 114; 111; 114] [11; 16] = [zero_loc; zero_loc].
 Check eq_refl : enc 233 = [195; 169].
 Check eq_refl : enc 128512 = [240; 159; 152; 128].
 Check eq_refl : enc 8364 = [226; 130; 172].
 Check eq_refl : (spec_line [195;169;10;97] 3, spec_col [195;169;10;97] 3, spec_col [195;169;10;97] 2) = (2, 1, 2).
-Check eq_refl : print_loc (mkloc 11 2 2 11 16) zero_loc = (2, 0, Some (Some 2, 0)).
-Check eq_refl : map core (offset_to_location Fixed [233; 233; 10; 97; 98] [5; 7; 5]) = [(5, 2, 2, 5); (7, 2, 4, 5); (5, 2, 2, 5)].
+Check eq_refl : print_loc (mkloc 11 2 2 11 16) (mkloc 16 2 7 11 16) = (2, 1, Some (None, 7)).
+Check eq_refl : print_loc (mkloc 2 1 4 0 5) (mkloc 8 2 3 6 9) = (1, 2, Some (Some 1, 3)).
+Check eq_refl : print_js (mkloc 14 2 4 12 18) = (2, 3).
 Check eq_refl : sink [(true, 0); (false, 1); (true, 2)] [EStart 1; EToken; EFinish 1] = Some [(true, 0); (false, 1); (true, 2)].
 Check eq_refl : sink [(true, 0); (false, 1); (true, 2)] [EStart 1; EToken; EToken; EFinish 1] = None.
